@@ -6,7 +6,16 @@ AST must not change; runs added at the start of the text / before the end-of-tex
 REF (REF says where a run may be inserted); (2) REF under the whole configuration matrix for the
 placement of skipping, nameguard/namechars and ignorecase; (3) layering: every option is set, with
 conflicting values, at the directive layer, the parse-time layer and (text route) the compile-time
-layer, and REF is given the documented winner.  DESIGN.md section 3/C09.
+layer, and REF is given the documented winner; (4) the name family (interleaved with the general
+workload in the same shard process): grammars over a small shared vocabulary of tokens that are names
+under SOME namechars only ('end-if', 'a_b', 'x$', 'é-1' ...), the same rules as 2-3 models that differ
+in @@namechars/@@nameguard, and a schedule of parses that keeps changing namechars (directive of the
+model used, parse-time setting incl. the explicit empty string) back and forth across consecutive
+parses of one process / one model / one long-lived generated parser object, with name characters,
+would-be name characters and other characters directly after the tokens; REF judges every execution
+under that execution's effective configuration alone, and a disagreement is re-run once in a fresh
+interpreter to tell "depends on what was parsed before" from "wrong on its own".
+DESIGN.md section 3/C09.
 """
 from __future__ import annotations
 
@@ -28,18 +37,31 @@ RULE = ('cases = (grammar whose patterns match no whitespace (no /./, ->, $->, l
         'option delivered as directive, as parse-time setting, or both with conflicting values (and, on the text route, as compile-time setting); '
         'inputs derivation-guided with name characters glued to tokens and case variants; every accepted input is re-laid-out 3 times; '
         'non-trivial = accepted input containing at least one skipped run that was rewritten, or a nameguard/ignorecase decision point '
-        '(token followed by a name character, token in another case); distinct by (grammar text, configuration, input)')
+        '(token followed by a name character, token in another case); distinct by (grammar text, configuration, input); '
+        'name family (1 case after every 7 general cases, same process, fixed order): (grammar over a 16-token vocabulary shared by the whole '
+        'process, with tokens containing - _ $ and their alphanumeric prefixes; 2-3 directive variants of the same rules, always one without and '
+        'one with @@namechars; 6 inputs with a name character / one of - _ $ / another character directly after a token occurrence; a schedule '
+        'of ~25 parses, each = (variant, parse-time namechars/nameguard/ignorecase/whitespace from a pool of 4-6 incl. namechars=\'\', input, '
+        'model.parse | one long-lived generated parser object | fresh generated parser object), shuffled, its first 5 parses repeated at the end); '
+        'every parse is judged by REF; non-trivial = every judged parse; distinct by (grammar, effective configuration, input, executor)')
 ASSUMPTIONS = [
     'REF (vt/ref.py) places skipping before tokens, lower-case rule entry, constants, void, fail, alert and end-of-text only',
     'layout rewriting replaces exactly the runs REF skipped (non-empty by non-empty, drawn from the configured definitions); eol comments are '
     'followed by a line break that the configured whitespace skips',
     'documented layering: defaults < compile-time settings < directives < parse-time settings',
+    'name family: the outcome of a parse is a function of (grammar, effective configuration, input) only - REF is given nothing else; an '
+    'explicit empty parse-time namechars overrides a directive, and "nameguard is implied by namechars" refers to the EFFECTIVE namechars '
+    '(mechanism signature layering/nameguard-implied-by-overridden-namechars when TatSu keeps the implied nameguard of overridden namechars)',
 ]
 FLOORS = {
     'quick': {'layouts_checked': 10000, 'runs_rewritten': 4000, 'ref_compared': 9000, 'layer:directive': 1300, 'layer:parse': 1300,
               'layer:conflict': 400, 'layer:compile': 150, 'nameguard_decisions': 1200, 'ignorecase_token_matches': 150,
-              'ws:default': 800, 'ws:regex': 400, 'ws:empty': 200, 'comment_runs': 1300, 'added_leading': 6000, 'added_trailing': 6000, 'reused_parser_checked': 3000, 'skipto_family': 200, 'skipto_family_with_comments': 80},
-    'thorough': {'layouts_checked': 250000, 'runs_rewritten': 90000, 'ref_compared': 200000},
+              'ws:default': 800, 'ws:regex': 400, 'ws:empty': 200, 'comment_runs': 1300, 'added_leading': 6000, 'added_trailing': 6000, 'reused_parser_checked': 3000, 'skipto_family': 200, 'skipto_family_with_comments': 80,
+              'namefam_cases': 350, 'namefam_steps': 7000, 'namefam_token_status_flips': 800, 'namefam_decision:guarded': 2500,
+              'namefam_decision:token_not_a_name': 1200, 'namefam_namechars_changed_between_parses': 3000, 'namefam_exec:model': 1500,
+              'namefam_exec:reused': 2000, 'namefam_exec:fresh': 1000, 'namefam_layer:conflict': 1000},
+    'thorough': {'layouts_checked': 250000, 'runs_rewritten': 90000, 'ref_compared': 200000,
+                 'namefam_steps': 150000, 'namefam_token_status_flips': 20000, 'namefam_decision:guarded': 60000},
 }
 N = {'quick': 3000, 'thorough': 72000}
 
@@ -344,8 +366,376 @@ def skipto_texts(rng, eff):
     return out
 
 
+# ------------------------------------------------------------------------------------------------ name family
+# Tokens that are names under SOME namechars only, in a process that keeps changing namechars.
+#
+# A grammar is built from a small vocabulary shared by all cases of a shard process (so the same token text recurs
+# under many configurations of one process); 2-3 models of the same rules differ in their @@namechars / @@nameguard
+# directives; a schedule of parses alternates between those models, between parse-time namechars / nameguard values
+# (including the explicit empty string and "not given"), between model.parse, one long-lived generated parser object
+# and fresh generated parser objects, over a few inputs in which a name character, a would-be name character
+# (- _ $) or another character directly follows a token.  The same (model, settings, input) recurs later in the
+# schedule after other configurations ran (flipping back and forth).  REF judges EVERY execution under the
+# effective configuration of that execution alone: what ran earlier in the process is not an input of the rule.
+NAME_VOCAB = ['end-if', 'end', 'if', 'a_b', 'a', 'x$', 'x', '$x', 'é-1', 'é', 'a-b', 'b_', '_b', 'c1', '-', 'if-']
+NAME_SPECIAL = [t for t in NAME_VOCAB if re.search(r'[-_$]', t)]
+FOLLOW = {
+    'name': ['x', '1', 'é', 'λ', 'b', '٣'],
+    'namechar': ['-', '_', '$'],
+    'other': ['.', ',', ' ', '+', ''],
+}
+NAME_PATS = {r'\w+': ['a', 'x1', 'é'], r'[-\w$]+': ['a', '-x', 'x$', 'a_b'], r'\d+': ['1', '42']}
+NC_VALUES = ['', '-', '_$', '-_$', '$', '_']
+NAME_DIRECTIVES = [
+    {}, {}, {'namechars': '-'}, {'namechars': '_$'}, {'namechars': '-_$'}, {'namechars': '$'}, {'nameguard': True},
+    {'nameguard': False}, {'namechars': '-', 'nameguard': False}, {'whitespace': ''}, {'whitespace': '', 'namechars': '-_'},
+    {'ignorecase': True}, {'ignorecase': True, 'namechars': '-_$'},
+]
+NAME_EVERY = 8            # one case of the family after every 7 cases of the general workload
+NAME_ISO_PER_SHARD = 3   # disagreements re-run in a fresh interpreter (diagnosis: does the answer depend on process history?)
+
+
+def name_grammar(rng):
+    T = L.Tok
+    k = rng.choice([2, 3, 3, 4])
+    toks = [rng.choice(NAME_SPECIAL)]
+    # a prefix of the special token if the vocabulary has one ('end' < 'end-if', 'a' < 'a_b', 'x' < 'x$' ...)
+    pre = [t for t in NAME_VOCAB if t != toks[0] and toks[0].startswith(t)]
+    if pre and rng.random() < 0.6:
+        toks.append(rng.choice(pre))
+    while len(toks) < k:
+        t = rng.choice(NAME_VOCAB)
+        if t not in toks:
+            toks.append(t)
+
+    def alt():
+        opts = rng.sample(toks, rng.choice([2, 2, 3]) if len(toks) > 2 else 2)
+        return L.Group(L.Choice(tuple(T(t) for t in opts)))
+
+    def element():
+        p = rng.random()
+        if p < 0.35:
+            return T(rng.choice(toks))
+        if p < 0.60:
+            return alt()
+        if p < 0.68:
+            return L.Opt(T(rng.choice(toks)))
+        if p < 0.80:
+            return (L.Clo if rng.random() < 0.5 else L.PClo)(alt() if rng.random() < 0.7 else T(rng.choice(toks)))
+        if p < 0.88:
+            return L.Named(rng.choice(['n', 'm']), T(rng.choice(toks)))
+        return L.Pat(rng.choice(list(NAME_PATS)))
+
+    items = [T(toks[0]) if rng.random() < 0.5 else alt()] if rng.random() < 0.6 else [element()]
+    for _ in range(rng.choice([0, 1, 1, 2])):
+        items.append(element())
+    rules = []
+    if len(items) > 1 and rng.random() < 0.3:
+        # one element behind a rule: lower-case (skips at entry) or upper-case (does not)
+        j = rng.randrange(len(items))
+        name = rng.choice(['x', 'Y'])
+        rules.append(L.Rule(name, items[j]))
+        items[j] = L.Call(name)
+    body = G.normalise(L.Seq(tuple(items))) if len(items) > 1 else items[0]
+    return L.Grammar([L.Rule('start', body)] + rules), toks
+
+
+def name_derive(rng, g, e):
+    if isinstance(e, L.Pat):
+        return rng.choice(NAME_PATS.get(e.rx, ['a']))
+    if isinstance(e, L.Seq):
+        out = ''
+        for it in e.items:
+            p = name_derive(rng, g, it)
+            if out and p and rng.random() < 0.55:
+                out += rng.choice([' ', ' ', '\t', '\n'])
+            out += p
+        return out
+    if isinstance(e, (L.Clo, L.PClo)):
+        n = rng.choice([0, 1, 2]) if isinstance(e, L.Clo) else rng.choice([1, 2, 3])
+        out = ''
+        for _ in range(n):
+            p = name_derive(rng, g, e.e)
+            if out and p and rng.random() < 0.55:
+                out += ' '
+            out += p
+        return out
+    if isinstance(e, L.Choice):
+        return name_derive(rng, g, rng.choice(e.opts))
+    if isinstance(e, L.Call):
+        return name_derive(rng, g, g.rule(e.name).body)
+    if isinstance(e, L.Opt):
+        return '' if rng.random() < 0.35 else name_derive(rng, g, e.e)
+    if isinstance(e, (L.Group, L.Named)):
+        return name_derive(rng, g, e.e)
+    return G.derive(rng, g, e)
+
+
+def name_texts(rng, g, toks, n):
+    out = []
+    body = g.rules[0].body
+    for _ in range(n):
+        t = name_derive(rng, g, body)
+        if rng.random() < 0.85:
+            # a name character / would-be name character / other character DIRECTLY after an occurrence of a token
+            ends = sorted({m.end() for tok in toks for m in re.finditer(re.escape(tok), t)})
+            if ends:
+                i = rng.choice(ends)
+                cls = rng.choice(['name', 'name', 'namechar', 'namechar', 'other'])
+                t = t[:i] + rng.choice(FOLLOW[cls]) + t[i:]
+            else:
+                t = rng.choice(toks) + rng.choice(FOLLOW['name'])
+        if rng.random() < 0.15:
+            t = ''.join(c.upper() if rng.random() < 0.5 else c for c in t)
+        if rng.random() < 0.15:
+            t = rng.choice([' ', '\n']) + t
+        out.append(t)
+    return out
+
+
+def name_case(rng):
+    """-> JSON-able description of one case of the family: grammar, directive variants, schedule of parses"""
+    g, toks = name_grammar(rng)
+    plain = rng.choice([{}, {}, {}, {'nameguard': True}, {'ignorecase': True}])
+    withnc = dict(rng.choice([{}, {}, {'nameguard': False}, {'ignorecase': True}]), namechars=rng.choice(NC_VALUES[1:]))
+    variants = [plain, withnc]   # always: the same rules without and with @@namechars
+    if rng.random() < 0.6:
+        variants.append(rng.choice(NAME_DIRECTIVES))
+    rng.shuffle(variants)
+    compile_layer = {}
+    if rng.random() < 0.05:
+        # (text route) the compile-time layer: below the directives, above the defaults
+        compile_layer = {'namechars': rng.choice(NC_VALUES[1:])}
+    pool = [{}]
+    for _ in range(rng.choice([3, 4, 5])):
+        p = {}
+        q = rng.random()
+        if q < 0.75:
+            p['namechars'] = rng.choice(NC_VALUES)
+        if rng.random() < 0.3:
+            p['nameguard'] = rng.random() < 0.6
+        if rng.random() < 0.12:
+            p['ignorecase'] = rng.random() < 0.7
+        if rng.random() < 0.10:
+            p['whitespace'] = rng.choice(['', r'[ \t]+'])
+        pool.append(p)
+    texts = name_texts(rng, g, toks, 6)
+    steps = []
+    for ti in range(len(texts)):
+        for _ in range(rng.choice([3, 4])):
+            steps.append({'v': rng.randrange(len(variants)), 'parse': rng.choice(pool), 'text': ti,
+                          'how': rng.choice(['model', 'model', 'reused', 'reused', 'fresh'])})
+    rng.shuffle(steps)
+    # ... and back: configurations that ran before run again after the others
+    steps += [dict(s) for s in steps[:5]]
+    return {'grammar': L.to_json(g), 'toks': toks, 'variants': variants, 'compile': compile_layer, 'texts': texts, 'steps': steps}
+
+
+class NameState:
+    """per process: what the name family has already driven through this interpreter (evidence only, never the oracle)"""
+
+    def __init__(self):
+        self.status = {}      # token text -> last name status (True/False) at a decision point in this process
+        self.iso_left = NAME_ISO_PER_SHARD
+
+
+NAME_STATE = NameState()
+
+
+def _iso_main():
+    """child interpreter: one parse of one model in a process that has parsed nothing else; JSON in, JSON out"""
+    import json
+    import sys
+    from ..common import assert_repo_tatsu
+    assert_repo_tatsu()   # the tree under test, as in the shard
+    d = json.load(sys.stdin)
+    g = L.from_json(d['grammar'])
+    b = name_execute(name_build(g, d['directives'], d['compile']), None, d['how'], d['text'], d['parse'], g)
+    json.dump(jsonish(b), sys.stdout)
+
+
+def name_isolated(g, directives, comp, how, text, parse):
+    """the same single parse in a fresh interpreter -> outcome, or None if that could not be done"""
+    import json
+    import subprocess
+    import sys
+    try:
+        p = subprocess.run([sys.executable, '-c', 'from vt.checks.c09 import _iso_main; _iso_main()'],
+                           input=json.dumps({'grammar': L.to_json(g), 'directives': directives, 'compile': comp, 'how': how,
+                                             'text': text, 'parse': parse}),
+                           capture_output=True, text=True, timeout=300, check=False)
+        return tuple(json.loads(p.stdout)) if p.returncode == 0 else None
+    except Exception:  # noqa: BLE001 - diagnosis only
+        return None
+
+
+def name_build(g, directives, comp):
+    """-> {'model': grammar model, 'cls': generated parser class or None, 'reused': None}"""
+    gw = wrapped(L.Grammar(list(g.rules), directive_text_values(directives), tuple(g.keywords)), g.rules[0].name)
+    if comp:
+        import tatsu
+        model = tatsu.compile(L.grammar_text(gw), name='T', **comp)
+    else:
+        model = L.to_model(gw, name='T')
+    cls = None
+    try:
+        from ..tsu import gen_parser
+        cls = gen_parser(model)[0]
+    except Exception:  # noqa: BLE001 - code generation problems are C02's business
+        cls = None
+    return {'model': model, 'cls': cls, 'reused': None}
+
+
+def name_execute(built, acc, how, text, parse, g):
+    budget = D.step_budget(g, text)
+    if how != 'model' and built['cls'] is not None:
+        if how == 'reused':
+            if built['reused'] is None:
+                built['reused'] = built['cls']()
+            target = built['reused']
+        else:
+            target = built['cls']()
+    else:
+        how = 'model'
+        target = built['model']
+    if acc is not None:
+        acc.count('namefam_exec:' + how)
+    return run_wrapped(target, text, budget=budget, **parse)
+
+
+def jsonish(x):
+    if isinstance(x, tuple):
+        return [jsonish(i) for i in x]
+    if isinstance(x, list):
+        return [jsonish(i) for i in x]
+    if isinstance(x, dict):
+        return {k: jsonish(v) for k, v in x.items()}
+    return x
+
+
+def name_decisions(r, toks, text):
+    """textual decision points of one execution under its configuration (evidence): -> list of (token, class, is_name)"""
+    out = []
+    for tok in toks:
+        for m in re.finditer(re.escape(tok), text, re.IGNORECASE if r.ignorecase else 0):
+            nxt = text[m.end()] if m.end() < len(text) else None
+            if nxt is None:
+                continue
+            out.append((tok, r.is_name_char(nxt), r.is_name(tok)))
+    return out
+
+
+def run_name_case(acc, case, origin, upto=None):
+    g = L.from_json(case['grammar'])
+    toks, variants, comp, texts = case['toks'], case['variants'], case.get('compile') or {}, case['texts']
+    start = g.rules[0].name
+    gd = L.Grammar(list(g.rules), {}, tuple(g.keywords))
+    acc.count('namefam_cases')
+    if comp:
+        acc.count('namefam_layer:compile')
+    built = []
+    for dv in variants:
+        try:
+            built.append(name_build(g, dv, comp))
+        except Exception as e:  # noqa: BLE001
+            acc.evaluations += 1
+            w = {'family': 'name', 'case': case, 'origin': origin, 'upto': 0}
+            if comp:
+                acc.violation('layering/compile-setting-breaks-compilation:' + '+'.join(sorted(comp)),
+                              f'tatsu.compile(grammar, **{comp}) failed with {type(e).__name__}: the compile-time setting was applied to '
+                              f'parsing the grammar text: {describe(g, dv, {}, comp)}', w)
+            else:
+                acc.violation('exc:build:' + type(e).__name__, f'building failed: {type(e).__name__}: {e} {describe(g, dv, {}, {})}', w)
+            return
+    prev = None
+    steps = case['steps'] if upto is None else case['steps'][:upto]
+    for si, st in enumerate(steps):
+        dv, parse, text, how = variants[st['v']], st['parse'], texts[st['text']], st['how']
+        eff = dict(comp)
+        eff.update(dv)
+        eff.update(parse)
+        a, r = ref_run(gd, text, start, settings=eff, max_steps=20000)
+        if a[0] == 'budget':
+            acc.count('ref_budget')
+            continue
+        b = name_execute(built[st['v']], acc, how, text, parse, g)
+        acc.evaluations += 1
+        acc.count('namefam_steps')
+        if dv:
+            acc.count('namefam_layer:directive')
+        if parse:
+            acc.count('namefam_layer:parse')
+        if any(k in parse and dv[k] != parse[k] for k in dv):
+            acc.count('namefam_layer:conflict')
+        if prev is not None and prev != (eff.get('namechars') or ''):
+            acc.count('namefam_namechars_changed_between_parses')
+        prev = eff.get('namechars') or ''
+        for tok, nxt_is_name, tok_is_name in name_decisions(r, toks, text):
+            if not r.nameguard:
+                acc.count('namefam_decision:nameguard_off')
+                continue
+            if not nxt_is_name:
+                acc.count('namefam_decision:next_not_name_char')
+                continue
+            acc.count('namefam_decision:guarded' if tok_is_name else 'namefam_decision:token_not_a_name')
+            was = NAME_STATE.status.get(tok)
+            if was is not None and was != tok_is_name:
+                # the same token text, earlier in this process, had the other status at a decision point
+                acc.count('namefam_token_status_flips')
+            NAME_STATE.status[tok] = tok_is_name
+        acc.nontriv('name', L.grammar_text(g), repr(sorted(eff.items())), text, how)
+        tag = D.relation(a, b, bool(r.nonw))
+        if tag is None:
+            continue
+        w = {'family': 'name', 'case': case, 'origin': origin, 'upto': si + 1, 'ref': a, 'tatsu': b}
+        where = (f'{describe(g, dv, parse, comp)} input {text!r} through '
+                 f'{ {"model": "model.parse", "reused": "a long-lived generated parser object", "fresh": "a new generated parser object"}[how] }')
+        if comp:
+            eff2 = dict(dv)
+            eff2.update(parse)
+            a2, r2 = ref_run(gd, text, start, settings=eff2, max_steps=20000)
+            if D.relation(a2, b, bool(r2.nonw)) is None:
+                acc.violation('layering/compile-setting-ignored:' + '+'.join(sorted(comp)),
+                              f'a setting given to tatsu.compile() does not reach the compiled model: {where} expected {a} got {b}', w)
+                continue
+        if (dv.get('namechars') or comp.get('namechars')) and not eff.get('namechars') and 'nameguard' not in parse:
+            # recorded finding (stable mechanism signature): non-empty namechars of a lower layer are overridden by an explicit
+            # empty value and no nameguard is given above them - does TatSu still apply the nameguard those namechars implied?
+            a2, r2 = ref_run(gd, text, start, settings=dict(eff, nameguard=True), max_steps=20000)
+            if D.relation(a2, b, bool(r2.nonw)) is None:
+                acc.violation('layering/nameguard-implied-by-overridden-namechars',
+                              f'the nameguard implied by namechars stays in force after those namechars were overridden by an explicit empty '
+                              f'value (the effective configuration has nameguard off): {where} expected {a} got {b}', w)
+                continue
+        iso = None
+        if NAME_STATE.iso_left > 0:
+            NAME_STATE.iso_left -= 1
+            iso = name_isolated(g, dv, comp, how, text, parse)
+            acc.count('namefam_isolated_reruns')
+        if iso is not None and D.relation(tuple(jsonish(a)), iso, bool(r.nonw)) is None:
+            hist = [(variants[s['v']], s['parse'], texts[s['text']]) for s in steps[max(0, si - 3):si]]
+            acc.violation(f'name/history-dependent/{tag}',
+                          f'the nameguard/namechars/case decision depends on what was parsed EARLIER in the same process: {where} '
+                          f'REF={a} TATSU={b}, while the same single parse in a fresh interpreter gives {iso} (= REF); '
+                          f'the parses just before it (directives, parse-time settings, input): {hist}', dict(w, isolated=iso))
+        else:
+            acc.violation(f'name/ref/{tag}/{sorted(eff)}',
+                          f'nameguard/namechars/case handling differs from the documented rules ({tag}): {where} REF={a} TATSU={b}'
+                          + ('' if iso is None else f' (the same in a fresh interpreter: {iso})'), w)
+
+
 def run_shard(desc, acc):
+    nj = 0
     for i in range(desc['n']):
+        if i % NAME_EVERY == NAME_EVERY - 1:
+            # the name family is interleaved with the general workload at fixed indices: one process, one deterministic order
+            rngn = random.Random(h64('C09', 'name', desc['seed'], desc['shard'], nj))
+            case = name_case(rngn)
+            run_name_case(acc, case, {'shard': desc['shard'], 'name_case': nj})
+            if nj == 0:
+                acc.sample({'family': 'name', 'grammar': L.grammar_text(L.from_json(case['grammar'])), 'directive_variants': case['variants'],
+                            'compile_time': case['compile'], 'inputs': case['texts'], 'schedule': case['steps'][:8]})
+            nj += 1
         rng = random.Random(h64('C09', desc['seed'], desc['shard'], i))
         g = gen_grammar(rng)
         directives, parse, comp, eff = gen_config(rng)
@@ -363,6 +753,10 @@ def run_shard(desc, acc):
 
 
 def replay(w, acc):
+    if w.get('family') == 'name':
+        # the schedule up to and including the parse that disagreed, in a process that did nothing else before
+        run_name_case(acc, w['case'], {'mode': 'replay'}, upto=w.get('upto'))
+        return
     g = L.from_json(w['grammar'])
     directives, parse, comp = w.get('directives', {}), w.get('parse', {}), w.get('compile', {})
     eff = dict(comp)
@@ -377,6 +771,8 @@ MANIFEST = {
     'level_text': 'for every accepted input the whitespace/comment runs that were skipped are replaced by other runs from the configured definitions and the '
                   'real parser must return the same AST; skipping placement, nameguard/namechars and ignorecase are decided by REF under a matrix of '
                   'configurations delivered through directives, parse-time settings and compile-time settings with conflicting values (layering)',
-    'level_note': 'trusted: vt/ref.py lexical rules; the layout generator only rewrites runs REF skipped and gates added leading/trailing runs by REF; '
+    'level_note': 'name family: tokens that are names under some namechars only, parsed under namechars that change back and forth between '
+                  'consecutive parses of one process / model / generated parser object, every parse judged by REF under its own configuration; '
+                  'trusted: vt/ref.py lexical rules; the layout generator only rewrites runs REF skipped and gates added leading/trailing runs by REF; '
                   'grammars are restricted by construction to what the statement covers (patterns match no whitespace; no /./, ->, $->)',
 }
